@@ -719,7 +719,11 @@ func c20Replay(b *cBeh, r refinement, engine string) *Fail {
 	}
 	signers := []common.Address{host.Addr(2), host.Addr(3)}
 	if res := w.Tx(c.setupTx(), signers[:1], useVM); res.Err != nil {
-		return harness(mk("setup", 0, "", res.Err.Error(), c.setupTx()))
+		if isCheckerError(res.Err) {
+			return harness(mk("setup", 0, "", res.Err.Error(), c.setupTx()))
+		}
+		// saving the initial (valid) containers is itself a call the model predicts to succeed
+		return mk("outcome", 0, "save", "saving the initial containers: model predicts success, runtime returned "+res.Class+": "+res.Err.Error(), c.setupTx())
 	}
 	proj := ""
 	var cur []cStep
